@@ -12,9 +12,8 @@ def hexVal (c : Char) : Option Nat :=
   else if 'A' ≤ c ∧ c ≤ 'F' then some (c.toNat - 'A'.toNat + 10)
   else none
 
-/-- `"-"` is the empty byte string; otherwise an even number of hex digits. -/
-def parseHex (s : String) : Option (Array UInt8) :=
-  if s == "-" then some #[] else
+/-- plain hex digits -/
+def parseHexPlain (s : String) : Option (Array UInt8) :=
   let rec go (cs : List Char) (acc : Array UInt8) : Option (Array UInt8) :=
     match cs with
     | [] => some acc
@@ -24,6 +23,26 @@ def parseHex (s : String) : Option (Array UInt8) :=
       | some x, some y => go rest (acc.push (UInt8.ofNat (x * 16 + y)))
       | _, _ => none
   go s.toList #[]
+
+def appendRep (acc unit : Array UInt8) : Nat → Array UInt8
+  | 0 => acc
+  | n + 1 => appendRep (acc ++ unit) unit n
+
+/-- `"-"` is the empty byte string; otherwise `+`-separated parts, each an even number of hex
+digits or `r<count>x<hex>` (the hex bytes repeated `count` times). -/
+def parseHex (s : String) : Option (Array UInt8) :=
+  if s == "-" then some #[] else
+  (s.splitOn "+").foldlM (init := (#[] : Array UInt8)) fun acc part =>
+    if part.startsWith "r" then
+      match (part.drop 1).toString.splitOn "x" with
+      | [n, hex] => do
+        let n ← n.toNat?
+        let unit ← parseHexPlain hex
+        pure (appendRep acc unit n)
+      | _ => none
+    else do
+      let bs ← parseHexPlain part
+      pure (acc ++ bs)
 
 def hexDigit (n : Nat) : Char :=
   if n < 10 then Char.ofNat ('0'.toNat + n) else Char.ofNat ('a'.toNat + n - 10)
